@@ -20,7 +20,8 @@ from translator import C12_field as T_fld
 from translator.pyexpr import TranslateError
 from vlib import common
 
-BIN = {0: "add", 1: "sub", 2: "mul", 3: "div", 4: "maximum", 5: "minimum", 6: "greater", 7: "less_equal", 8: "equal"}
+BIN = {0: "add", 1: "sub", 2: "mul", 3: "div", 4: "maximum", 5: "minimum", 6: "greater", 7: "less_equal", 8: "equal",
+       9: "less", 10: "greater_equal", 11: "not_equal"}
 UN = {0: "negative", 1: "absolute", 2: "square"}
 RED = {0: "sum", 1: "prod", 2: "max", 3: "min"}
 FEK = ("fe", "field")
@@ -88,8 +89,8 @@ class Gen:
                  ("field", "fe"), ("fe", "field"), ("fe", "plain"), ("plain", "fe")]
         kx, ky = rng.choice(pairs)
         anyfield = "field" in (kx, ky)
-        code = rng.choice([0, 1, 1, 2, 3, 3] if anyfield else [0, 1, 1, 2, 3, 3, 4, 5, 6, 7, 8])
-        how = "operator" if (anyfield or code in (0, 1, 2, 3, 6, 7, 8) and rng.random() < 0.7) else "np"
+        code = rng.choice([0, 1, 1, 2, 3, 3] if anyfield else [0, 1, 1, 2, 3, 3, 4, 5, 6, 7, 8, 9, 10, 11])
+        how = "operator" if (anyfield or code in (0, 1, 2, 3, 6, 7, 8, 9, 10, 11) and rng.random() < 0.7) else "np"
         if code in (4, 5):
             how = "np"
         r = rng.choice([0, 1, 1, 2, 2, 2, 3, 4])
@@ -182,7 +183,7 @@ class Gen:
         if rng.random() < 0.6:
             r = rng.choice([0, 1, 2, 2, 3, 3, 4])
             return {"op": "T", "args": [self.operand("fe", [self.d(), self.d()] + [self.d() for _ in range(r)])]}
-        r = rng.choice([2, 2, 3])
+        r = rng.choice([2, 2, 3, 4])
         k = rng.choice(["fe", "fe", "plain"])
         lead = [self.d(), self.d()] if k == "fe" else []
         return {"op": "Transpose", "args": [self.operand(k, lead + [self.d() for _ in range(r)])]}
@@ -291,8 +292,148 @@ class Gen:
             v = self.operand(k, lead + tail)
         return {"op": "broadcast", "Ne": Ne, "nPg": nPg, "td": td, "args": [v]}
 
-    FAMILIES = [("ufunc2", 34), ("contract", 26), ("reduce", 10), ("einsum", 7), ("where", 5),
-                ("transposes", 5), ("matfun", 6), ("broadcast", 5), ("ufunc1", 2)]
+    # -- TensorProd ---------------------------------------------------------------------------
+    def tensorprod(self):
+        rng = self.rng
+        r = rng.choice([1, 2, 2, 2])
+        sym = r == 2 and rng.random() < 0.6
+        kinds = rng.choice([("fe", "fe"), ("fe", "fe"), ("fe", "fe"), ("plain", "plain"), ("fe", "plain"), ("plain", "fe")])
+        n = self.d()
+        Ne, nPg = self.d(), self.d()
+        ops = []
+        for k in kinds:
+            s = [n if (sym or rng.random() < 0.6) else self.d() for _ in range(r)]
+            if rng.random() < 0.06:
+                s[-1] = s[-1] + 1          # incompatible / different sizes
+            ops.append(self.operand(k, (self.lead(Ne, nPg) if k == "fe" else []) + s))
+        nd = None if rng.random() < 0.8 else r
+        return {"op": "TensorProd", "sym": sym, "nd": nd, "args": ops}
+
+    # -- Norm / Normalize: data whose Euclidean lengths are exact ---------------------------------
+    def _sliced(self, shape, axis, pow2):
+        """integer data such that every slice along `axis` (or the whole array when axis is None)
+        has an integer Euclidean length; pow2: the length is 0 or a power of two"""
+        rng = self.rng
+        total = prod(shape)
+        data = [0] * total
+        if axis is None:
+            if total:
+                a, b = rng.choice([(3, 4), (5, 12), (0, 2), (6, 8)])
+                idx = rng.sample(range(total), min(2, total))
+                data[idx[0]] = a if len(idx) == 2 else 5
+                if len(idx) == 2:
+                    data[idx[1]] = b
+            return data
+        n = shape[axis]
+        inner = prod(shape[axis + 1:])
+        for outer in range(prod(shape[:axis])):
+            for inn in range(inner):
+                if pow2:
+                    if n == 4 and rng.random() < 0.4:
+                        sl = [rng.choice([1, -1]) * rng.choice([1, 2]) for _ in range(4)]
+                        m = abs(sl[0])
+                        sl = [m * (1 if v > 0 else -1) for v in sl]
+                    else:
+                        sl = [0] * n
+                        if rng.random() < 0.8:
+                            sl[rng.randrange(n)] = rng.choice([1, -1, 2, -2, 4, -4])
+                else:
+                    sl = [0] * n
+                    pair = rng.choice([(3, 4), (-3, 4), (5, 12), (6, -8), (0, 5), (8, 15), (0, 0)])
+                    pos = rng.sample(range(n), min(2, n))
+                    if len(pos) == 2:
+                        sl[pos[0]], sl[pos[1]] = pair
+                    else:
+                        sl[pos[0]] = rng.choice([0, 2, -3])
+                for i, v in enumerate(sl):
+                    data[(outer * n + i) * inner + inn] = v
+        return data
+
+    def norms(self):
+        rng = self.rng
+        r = rng.choice([1, 1, 2, 2, 3])
+        k = rng.choice(["fe", "fe", "fe", "plain"])
+        shape = ([self.d(), self.d()] if k == "fe" else []) + [self.d() for _ in range(r)]
+        nd = len(shape)
+        op = rng.choice(["Norm", "Normalize", "Normalize"])
+        t = rng.random()
+        if op == "Norm" and t < 0.1:
+            axis = None
+        elif t < 0.8 or k == "plain":
+            a = rng.randrange(2 if k == "fe" else 0, nd)      # a tensor axis
+            axis = a if rng.random() < 0.4 else a - nd
+        else:
+            a = rng.randrange(0, 2)                            # an (Ne, nPg) axis
+            axis = a if rng.random() < 0.5 else a - nd
+        j = None if axis is None else (axis if axis >= 0 else axis + nd)
+        if op == "Norm" and r >= 2 and rng.random() < 0.3:     # Frobenius norm of the trailing matrix
+            flat = shape[:-2] + [shape[-2] * shape[-1]]
+            return {"op": "Norm", "axis": [-2, -1] if rng.random() < 0.5 else [nd - 2, nd - 1],
+                    "args": [{"k": k, "shape": shape, "data": self._sliced(flat, len(flat) - 1, False)}]}
+        exact = op == "Norm" or rng.random() < 0.6             # Normalize: power-of-two lengths -> exact quotients
+        c = {"op": op, "axis": axis, "args": [{"k": k, "shape": shape, "data": self._sliced(shape, j, op == "Normalize" and exact)}]}
+        if not exact:
+            c["model"] = False                                   # quotients like 3/5: compared with the loop oracle only
+        return c
+
+    # -- oracle-only families: numpy functions routed through the protocols ------------------------
+    def arrayfn(self):
+        rng = self.rng
+        which = rng.choice(["concat", "stack", "swapaxes", "linalg", "linalg", "reducekd", "reducekd", "inplace", "inplace", "out"])
+        Ne, nPg = self.d(), self.d()
+        if which in ("concat", "stack"):
+            r = rng.choice([1, 1, 2, 3])
+            s = [self.d() for _ in range(r)]
+            nd = 2 + r + (1 if which == "stack" else 0)
+            a = rng.randrange(2, nd)
+            ops = []
+            for i in range(rng.choice([2, 2, 3])):
+                si = list(s)
+                if which == "concat":
+                    si[a - 2] = self.d()
+                ops.append(self.operand("fe", [Ne, nPg] + si))
+            return {"op": which, "axis": a if rng.random() < 0.5 else a - nd, "args": ops, "model": False}
+        if which == "swapaxes":
+            r = rng.choice([2, 3])
+            s = [self.d() for _ in range(r)]
+            a, b = rng.sample(range(2, 2 + r), 2)
+            return {"op": "swapaxes", "axes": [a, b - (2 + r)], "args": [self.operand("fe", [Ne, nPg] + s)], "model": False}
+        if which == "linalg":
+            fn = rng.choice(["inv", "det", "solve"])
+            n = rng.choice([1, 2, 2, 3, 3])
+            lead = self.lead(Ne, nPg)
+            data = []
+            for _ in range(prod(lead)):
+                data += [x for row in self.unimodular(n) for x in row]
+            ops = [{"k": "fe", "shape": lead + [n, n], "data": data}]
+            if fn == "solve":
+                ops.append(self.operand("fe", lead + [n, rng.choice([1, 2])]))
+            return {"op": "linalg", "fn": fn, "args": ops, "model": False, "tol": 1e-10}
+        if which == "reducekd":
+            c = self.reduce()
+            c["keepdims"] = True
+            c["model"] = False
+            return c
+        # in-place operators and out=
+        code = rng.choice([0, 1, 2, 3])
+        r = rng.choice([0, 1, 2, 2])
+        s = [self.d() for _ in range(r)]
+        x = self.operand("fe", [Ne, nPg] + s)
+        yk = rng.choice(["scalar", "plain", "fe", "fe"])
+        pool = [1, 2, 4, -1, -2, -4] if code == 3 else None
+        if yk == "scalar":
+            y = self.operand("scalar", [], pool)
+        elif yk == "plain":
+            y = self.operand("plain", self.derive(s) if rng.random() < 0.85 else [self.d()] + s, pool)
+        else:
+            y = self.operand("fe", self.lead(Ne, nPg) + self.derive(s), pool)
+        if which == "inplace":
+            return {"op": "inplace", "code": code, "args": [x, y], "model": False}
+        return {"op": "out", "code": code, "args": [x, y], "out_shape": [Ne, nPg] + s, "out_kind": rng.choice(["fe", "plain"]), "model": False}
+
+    FAMILIES = [("ufunc2", 30), ("contract", 22), ("reduce", 9), ("einsum", 6), ("where", 5),
+                ("transposes", 5), ("matfun", 5), ("broadcast", 5), ("ufunc1", 2),
+                ("tensorprod", 7), ("norms", 6), ("arrayfn", 10)]
 
     def case(self, cid):
         rng = self.rng
@@ -307,6 +448,8 @@ class Gen:
                 fe = [o for o in c["args"] if o["k"] in FEK]
                 lead = max([prod(o["shape"][:2]) for o in fe] + [1])
                 est = max(est, prod(c["args"][0]["shape"]) * prod(c["args"][1]["shape"]) // max(lead, 1))
+            if c["op"] == "TensorProd":
+                est = max(est, prod(c["args"][0]["shape"]) * prod(c["args"][1]["shape"][-2:]))
             if c["op"] in ("ufunc2", "where"):
                 est = max(est, result_size_guess([o["shape"] for o in c["args"]], [o["k"] for o in c["args"]]))
             if est <= self.cap:
@@ -396,6 +539,61 @@ def directed_cases():
                 C.append({"op": "einsum", "labels": [[0], [1]], "out": [0, 1], "args": [va, vb]})
                 C.append({"op": "where", "args": [fe(la + [n], [i % 2 for i in range(prod(la) * n)]), vb, sc(0)]})
                 C.append({"op": "where", "args": [fe(la + [n], [(i // 2) % 2 for i in range(prod(la) * n)]), fe(la + [n]), vb]})
+    # TensorProd: vector x vector, matrix x matrix plain and symmetrised, DIFFERENT non-symmetric
+    # operands, all pairings of finite element axes, plain x plain, mixed (raises)
+    for Ne, nPg, n in ((3, 2, 2), (2, 2, 2)):
+        leads = ([Ne, nPg], [Ne, 1], [1, nPg], [1, 1])
+        for la in leads:
+            for lb in leads:
+                A = fe(la + [n, n])
+                B = fe(lb + [n, n], [(7 * i * i + 3 * i + 2) % 9 - 3 for i in range(prod(lb) * n * n)])
+                C.append({"op": "TensorProd", "sym": True, "nd": None, "args": [A, B]})
+                C.append({"op": "TensorProd", "sym": False, "nd": None, "args": [A, B]})
+                C.append({"op": "TensorProd", "sym": False, "nd": None, "args": [fe(la + [n]), fe(lb + [n + 1], [(5 * i + 2) % 7 - 2 for i in range(prod(lb) * (n + 1))])]})
+    for sym in (True, False):
+        C.append({"op": "TensorProd", "sym": sym, "nd": None, "args": [pl([3, 3], [1, 2, 0, 0, 1, 3, 1, 0, 2]), pl([3, 3], [2, 0, 1, 1, 1, 0, 0, 3, 1])]})
+        C.append({"op": "TensorProd", "sym": sym, "nd": 2, "args": [fe([2, 2, 3, 3]), fe([2, 2, 3, 3], [(11 * i + 4) % 8 - 3 for i in range(36)])]})
+        C.append({"op": "TensorProd", "sym": sym, "nd": None, "args": [fe([2, 2, 2, 2]), pl([2, 2])]})
+    C.append({"op": "TensorProd", "sym": False, "nd": None, "args": [pl([3], [1, 2, 3]), pl([3], [4, 0, -1])]})
+    # Norm / Normalize on every axis; Transpose of rank 2 and 4
+    v = {"k": "fe", "shape": [2, 2, 2], "data": [3, 4, 0, 5, -6, 8, 12, 5]}
+    w = {"k": "fe", "shape": [2, 2, 2], "data": [3, 4, 4, 3, 4, 3, 3, 4]}
+    z = {"k": "fe", "shape": [2, 2, 2], "data": [0, 4, -2, 0, 0, 0, 1, 0]}
+    for a in (-1, 2):
+        C.append({"op": "Norm", "axis": a, "args": [v]})
+        C.append({"op": "Normalize", "axis": a, "args": [z]})
+        C.append({"op": "Normalize", "axis": a, "args": [v], "model": False})
+    for a in (0, 1, -2, -3, None):
+        C.append({"op": "Norm", "axis": a, "args": [w if a is not None else {"k": "fe", "shape": [2, 2, 2], "data": [3, 0, 0, 0, 0, 4, 0, 0]}]})
+    C.append({"op": "Norm", "axis": [-2, -1], "args": [{"k": "fe", "shape": [2, 2, 2, 2], "data": [3, 0, 0, 4, 1, 1, 1, 1, 0, 0, 0, 0, 2, 4, 4, 8]}]})
+    C.append({"op": "Norm", "axis": [1, 2], "args": [{"k": "fe", "shape": [2, 2, 2], "data": [3, 0, 0, 4, 1, 1, 1, 1]}]})
+    C.append({"op": "Transpose", "args": [fe([2, 2, 2, 3])]})
+    C.append({"op": "Transpose", "args": [fe([2, 2, 2, 2, 2, 3])]})
+    C.append({"op": "T", "args": [fe([2, 2, 2, 2, 2, 3])]})
+    # array functions along tensor axes, keepdims, in-place and out= (oracle-only), and the
+    # shape-coincidence probes of __wrap: axes 0/1 moved while Ne = nPg (= stack size)
+    a3, b3 = fe([2, 2, 3]), fe([2, 2, 3], [(4 * i + 1) % 5 - 2 for i in range(12)])
+    for ax in (2, -1):
+        C.append({"op": "concat", "axis": ax, "args": [a3, b3], "model": False})
+        C.append({"op": "stack", "axis": ax, "args": [a3, b3], "model": False})
+    C.append({"op": "stack", "axis": 0, "args": [a3, b3], "model": False})
+    C.append({"op": "stack", "axis": 0, "args": [fe([3, 2, 2]), fe([3, 2, 2])], "model": False})
+    C.append({"op": "swapaxes", "axes": [0, 1], "args": [a3], "model": False})
+    C.append({"op": "swapaxes", "axes": [0, 1], "args": [fe([3, 2, 2])], "model": False})
+    C.append({"op": "swapaxes", "axes": [2, 3], "args": [fe([2, 2, 2, 3])], "model": False})
+    for how in ("method", "np"):
+        for axis in ([2, 3], [-1], [1], [0, 2], None):
+            C.append({"op": "reduce", "code": 0, "axis": axis, "how": how, "kw": True, "tuple": bool(axis and len(axis) > 1), "keepdims": True,
+                      "args": [fe([2, 2, 2, 2])], "model": False})
+    um = [2, 1, 3, 2, 1, 0, 1, 1, 1, 2, 0, 1, 1, 1, -1, 2]
+    C.append({"op": "linalg", "fn": "inv", "args": [{"k": "fe", "shape": [2, 2, 2, 2], "data": um}], "model": False, "tol": 1e-10})
+    C.append({"op": "linalg", "fn": "det", "args": [{"k": "fe", "shape": [2, 2, 2, 2], "data": um}], "model": False, "tol": 1e-10})
+    C.append({"op": "linalg", "fn": "solve", "args": [{"k": "fe", "shape": [2, 1, 2, 2], "data": um[:8]}, fe([1, 2, 2, 1])], "model": False, "tol": 1e-10})
+    for code in (0, 1, 2, 3):
+        for y in (sc(2), pl([2], [1, 2]), fe([1, 1, 2], [2, 4]), fe([2, 2], [1, 2, 4, -1]), pl([2, 2, 2], [1, 2, 4, 1, 2, 4, 1, 2])):
+            C.append({"op": "inplace", "code": code, "args": [fe([2, 2, 2, 2]), y], "model": False})
+            for ok in ("fe", "plain"):
+                C.append({"op": "out", "code": code, "args": [fe([2, 2, 2, 2]), y], "out_shape": [2, 2, 2, 2], "out_kind": ok, "model": False})
     for i, c in enumerate(C):
         c["coll"] = True
     return C
@@ -468,6 +666,14 @@ def coq_expr(c):
         return "EWhere Q %s %s %s" % (A[0], A[1], A[2])
     if op == "broadcast":
         return "EBroadcast Q %s %d %d %d" % (A[0], c["Ne"], c["nPg"], c["td"])
+    if op == "TensorProd":
+        return "ETensorProd Q %s %s %s %s" % ("true" if c["sym"] else "false", "None" if c.get("nd") is None else "(Some %d)" % c["nd"], A[0], A[1])
+    if op == "Norm":
+        ax = c["axis"]
+        axl = None if ax is None else (ax if isinstance(ax, list) else [ax])
+        return "ENorm Q %s %s" % ("None" if axl is None else "(Some [%s]%%Z)" % "; ".join(zlit(a) for a in axl), A[0])
+    if op == "Normalize":
+        return "ENormalize Q %s%%Z %s" % (zlit(c["axis"]), A[0])
     raise ValueError(op)
 
 
@@ -505,6 +711,18 @@ def case_key(c):
         extra = json.dumps(c["labels"]) + json.dumps(c["out"])
     elif c["op"] == "broadcast":
         extra = "td%d" % c["td"]
+    elif c["op"] == "TensorProd":
+        extra = "sym%s:nd%s" % (c["sym"], c.get("nd"))
+    elif c["op"] in ("Norm", "Normalize", "concat", "stack"):
+        nd = len(c["args"][0]["shape"]) + (1 if c["op"] == "stack" else 0)
+        axl = None if c["axis"] is None else (c["axis"] if isinstance(c["axis"], list) else [c["axis"]])
+        extra = "none" if axl is None else ("fe-axis" if any((a if a >= 0 else a + nd) < 2 for a in axl) else "tensor-axis") + (":frobenius" if axl and len(axl) == 2 else "")
+    elif c["op"] == "linalg":
+        extra = c["fn"]
+    elif c["op"] in ("inplace", "out"):
+        extra = BIN[c["code"]] + ":" + c.get("out_kind", "")
+    if c["op"] == "reduce" and c.get("keepdims"):
+        extra += ":keepdims"
     return "%s|%s|%s|%s|%s" % (c["op"], extra, ks, rk, "coll" if c["coll"] else "free")
 
 
@@ -520,9 +738,25 @@ def violation_key(c):
         return "field-operator:%s:field-%s:other-%s" % (name, side, other)
     if op == "matmul" and kinds[0] in ("plain", "scalar") and kinds[1] == "fe":
         return "fearray-reflected-matmul:%s@fe" % kinds[0]
+    if op == "Norm":
+        nd = len(c["args"][0]["shape"])
+        axl = None if c["axis"] is None else (c["axis"] if isinstance(c["axis"], list) else [c["axis"]])
+        if kinds[0] == "fe" and (axl is None or any((a if a >= 0 else a + nd) < 2 for a in axl)):
+            return "norm-typing:fe-axes-reduced"
+    if op in ("stack", "swapaxes", "concat"):
+        nd = len(c["args"][0]["shape"]) + (1 if op == "stack" else 0)
+        ax = [c["axis"]] if "axis" in c else c["axes"]
+        if any((a if a >= 0 else a + nd) < 2 for a in ax):
+            return "array-function-wrap:shape-coincidence:%s" % op
     extra = ""
+    if op == "TensorProd":
+        extra = ":sym" if c["sym"] else ":plain-product"
+    if op == "linalg":
+        extra = ":" + c["fn"]
+    if op in ("inplace", "out"):
+        name = op + ":" + BIN[c["code"]]
     if op == "reduce":
-        extra = ":" + RED[c["code"]] + ":" + c["how"]
+        extra = ":" + RED[c["code"]] + ":" + c["how"] + (":keepdims" if c.get("keepdims") else "")
     if op == "einsum":
         extra = ":" + "".join(map(str, sum(c["labels"], []))) + ">" + "".join(map(str, c["out"]))
     if op == "broadcast":
@@ -626,7 +860,10 @@ def correspondence(ctx, ncases, cap, per_file=400):
         body = HEADER
         for c in cases[f0:f0 + per_file]:
             r = results[c["id"]]
-            if r["kind"] >= 20:      # not an array at all (object array, NaN): cannot agree with any model value
+            if c.get("model") is False:
+                # oracle-only family: decided by the independent per-(e,p) loop oracle on the implementation side
+                body += "Eval vm_compute in (%d, %s).\n" % (c["id"], "true" if r.get("oracle_ok") is True else "false")
+            elif r["kind"] >= 20:      # not an array at all (object array, NaN): cannot agree with any model value
                 body += "Eval vm_compute in (%d, false).\n" % c["id"]
             else:
                 body += "Eval vm_compute in (%d, agrees_err gen_detQ gen_invQ (%s) %s).\n" % (c["id"], coq_expr(c), coq_obs(c, r))
@@ -646,6 +883,7 @@ def correspondence(ctx, ncases, cap, per_file=400):
             verdict[int(m.group(1))] = m.group(2) == "true"
     ctx.checker_cmds.append("coqc (vm_compute) build/C12/Cases_*.v")
     bad = [c for c in cases if not verdict.get(c["id"], False) or results[c["id"]].get("oracle_ok") is False]
+    ctx.cov["corr_oracle_only_cases"] = sum(1 for c in cases if c.get("model") is False)
     ctx.cov["corr_cases_with_independent_loop_oracle"] = sum(1 for c in cases if "oracle_ok" in results[c["id"]])
     ctx.cov["corr_model_agrees_but_oracle_disagrees"] = sum(1 for c in cases if verdict.get(c["id"], False) and results[c["id"]].get("oracle_ok") is False)
     dist = {}
@@ -700,14 +938,16 @@ def report(ctx, cases, results, bad, rbad):
                 sum(len(o["data"]) for o in c["args"]))
     reps = {k: min(v, key=rep_rank) for k, v in groups.items()}
     # second pass: what does the model say for the representatives
-    body = HEADER + "".join("Eval vm_compute in observeZ gen_detQ gen_invQ (%s).\n" % coq_expr(c) for c in reps.values())
+    modelled = [c for c in reps.values() if c.get("model") is not False]
+    body = HEADER + "".join("Eval vm_compute in observeZ gen_detQ gen_invQ (%s).\n" % coq_expr(c) for c in modelled)
     rc, txt = ctx.coq_eval("Cases_failed.v", body, timeout=600)
     chunks = [x for x in re.split(r"\n\s*:\s*nat \* list nat \* list \(Z \* Z\)\s*", txt) if x.strip()]
-    models = [parse_obs_line(x.strip()) for x in chunks]
-    for (key, c), mv in zip(reps.items(), models + [None] * len(reps)):
+    parsed = [parse_obs_line(x.strip()) for x in chunks]
+    mvs = {c["id"]: m for c, m in zip(modelled, parsed + [None] * len(modelled))}
+    for key, c in reps.items():
         r = results[c["id"]]
-        mv = mv or {"kind": -1, "shape": [], "data": []}
-        cc = {k: v for k, v in c.items() if k not in ("coll",)}
+        mv = mvs.get(c["id"]) or r.get("oracle") or {"kind": -1, "shape": [], "data": []}
+        cc = {k: v for k, v in c.items() if k not in ("coll", "model")}
         snippet = REPLAY % {"case": json.dumps(cc), "model": json.dumps(mv)}
         prc, pout, perr = common.sh([common.PY, "-c", snippet], timeout=120, cwd=ctx.build,
                                     env={"PYTHONPATH": ctx.repo + os.pathsep + common.VERIF, "MPLBACKEND": "Agg"})
@@ -758,11 +998,14 @@ def run(ctx):
         ctx.violation("static-lib-build", "coq/lib or coq/model does not build", {"log": log[-3000:]}, found_input=False)
         return
     try:
-        gen, info = T_lin.generate(ctx.repo)
-    except (TranslateError, SyntaxError, OSError) as ex:
+        gen, info, terrs = T_lin.generate(ctx.repo)
+    except (SyntaxError, OSError, TranslateError) as ex:
         ctx.obligation("translate", False, str(ex))
         ctx.violation("translate", "translator rejected _linalg.py: %s" % ex, {"construct": str(ex)}, found_input=False)
-        gen = None
+        gen, terrs = None, []
+    for part, msg in terrs:
+        ctx.obligation("translate:" + part, False, msg)
+        ctx.violation("translate:" + part, "translator rejected the %s part of _linalg.py: %s" % (part, msg), {"construct": msg}, found_input=False)
     failed = []
     if gen is not None:
         ctx.obligation("translate", True, json.dumps(info))
@@ -772,6 +1015,15 @@ def run(ctx):
         r1 = ctx.coq(["Gen_Linalg.v", "C12_linalg.v"], timeout=900)
         r2 = ctx.coq(["C12_theorems.v"], timeout=900)
         failed += [r for r in (r1, r2) if not r.ok]
+        try:
+            open(os.path.join(ctx.build, "Gen_TensorProd.v"), "w").write(T_lin.generate_tensorprod(ctx.repo))
+            ctx.copy_props("C12/C12_tensorprod.v")
+            r4 = ctx.coq(["Gen_TensorProd.v", "C12_tensorprod.v"], timeout=300)
+            if not r4.ok:
+                failed.append(r4)
+        except (TranslateError, SyntaxError, OSError) as ex:
+            ctx.obligation("translate:TensorProd", False, str(ex))
+            ctx.violation("translate:TensorProd", "translator rejected TensorProd: %s" % ex, {"construct": str(ex)}, found_input=False)
         try:
             genf, finfo = T_fld.generate(ctx.repo)
             ctx.obligation("translate:_field.py", True, json.dumps(finfo))
